@@ -112,6 +112,8 @@ impl Node {
 
     /// Record that we sent the node a request.
     pub fn local_request(&mut self) {
+        #[cfg(btdht_verif)]
+        crate::verif_log::record(format!("T_LREQ {:?}", self.handle));
         self.last_local_request = Some(Instant::now());
 
         if self.status() != NodeStatus::Good {
@@ -121,6 +123,8 @@ impl Node {
 
     /// Record that the node sent us a request.
     pub fn remote_request(&mut self) {
+        #[cfg(btdht_verif)]
+        crate::verif_log::record(format!("T_RREQ {:?}", self.handle));
         self.last_request = Some(Instant::now());
     }
 
